@@ -26,15 +26,40 @@ TEMPS = [0.9, 0.1, 0.7]
 _WORLDS = {}
 
 
+STREAMING = [False]     # set per task: every request brings its own StreamingHandler
+
+
 def get_world(dialog):
-    w = _WORLDS.get(dialog)
+    key = (dialog, STREAMING[0])
+    w = _WORLDS.get(key)
     if w is None:
-        if dialog:
-            w = World(rw.V1_DIALOG, "rails:\n  dialog:\n    single_call:\n      enabled: False\n")
-        else:
-            w = World("", "rails:\n  dialog:\n    single_call:\n      enabled: False\n")
-        _WORLDS[dialog] = w
+        y = "rails:\n  dialog:\n    single_call:\n      enabled: False\n" + ("streaming: True\n" if STREAMING[0] else "")
+        w = World(rw.V1_DIALOG if dialog else "", y)
+        w.llm.streaming = STREAMING[0]
+        _WORLDS[key] = w
     return w
+
+
+async def _serve(w, k, chunks_out):
+    """one request; with STREAMING the caller's handler is consumed by a task of its own, like a streaming client"""
+    kw = dict(messages=[{"role": "user", "content": f"UQ{k}Q hello"}], options={"llm_params": {"temperature": TEMPS[k]}})
+    if not STREAMING[0]:
+        return await w.rails.generate_async(**kw)
+    import asyncio
+
+    from nemoguardrails.streaming import StreamingHandler
+
+    h = StreamingHandler()
+    got = chunks_out.setdefault(k, [])
+
+    async def consume():
+        async for c in h:
+            got.append(c)
+
+    t = asyncio.ensure_future(consume())
+    res = await w.rails.generate_async(streaming_handler=h, **kw)
+    await t
+    return res
 
 
 def reset(w):
@@ -54,8 +79,8 @@ def answer_for(task, prompt):
     if "generate_next_step" in t:
         return "  bot inform capabilities"
     if "generate_bot_message" in t:
-        return f'  "R{d}"'
-    return f"R{d}"
+        return f'  "R{d} said {d[:2]}"'
+    return f"R{d} said {d[:2]}"
 
 
 def make_factory(dialog, n_tasks):
@@ -63,6 +88,7 @@ def make_factory(dialog, n_tasks):
         w = get_world(dialog)
         reset(w)
         owner = {}  # llm call index -> request label
+        chunks = {}  # request -> streamed chunks received by its own handler
 
         def responder(task, prompt, i):
             # which request does this call belong to?  the user text carries the request label
@@ -75,12 +101,9 @@ def make_factory(dialog, n_tasks):
         for k in range(n_tasks):
             async def request(k=k):
                 REQ.set(f"req{k}")
-                return await w.rails.generate_async(
-                    messages=[{"role": "user", "content": f"UQ{k}Q hello"}],
-                    options={"llm_params": {"temperature": TEMPS[k]}},
-                )
+                return await _serve(w, k, chunks)
             env.arrival(f"req{k}", request)
-        return {"w": w, "owner": owner}
+        return {"w": w, "owner": owner, "chunks": chunks}
     return make
 
 
@@ -95,13 +118,14 @@ def isolated_reference(dialog, n_tasks):
             def responder(task, prompt, i):
                 return env.external(f"llm{i}", result=answer_for(task, prompt))
             w.llm_fn = responder
-            env.arrival(f"req{k}", lambda: w.rails.generate_async(
-                messages=[{"role": "user", "content": f"UQ{k}Q hello"}], options={"llm_params": {"temperature": TEMPS[k]}}))
-            return {"w": w}
+            chunks = {}
+            env.arrival(f"req{k}", lambda: _serve(w, k, chunks))
+            return {"w": w, "chunks": chunks}
         env, world = _run_default(make)
         w = world["w"]
         res = env.results.get(f"req{k}")
-        ref[k] = (_text(res), tuple(c["prompt"] for c in w.llm.calls), tuple((str(c["task"]), c["temperature"]) for c in w.llm.calls))
+        ref[k] = (_text(res), tuple(c["prompt"] for c in w.llm.calls), tuple((str(c["task"]), c["temperature"]) for c in w.llm.calls),
+                  list(world["chunks"].get(k, [])))
         env.close()
     return ref
 
@@ -137,11 +161,16 @@ def _text(res):
 
 
 def explore(task):
-    dialog, n_tasks, granularity, max_dev, budget_s = task
+    dialog, n_tasks, granularity, max_dev, budget_s = task[:5]
+    STREAMING[0] = bool(task[5]) if len(task) > 5 else False
     res = {"executions": 0, "states": 0, "transitions": 0, "validated": 0, "overlapping_executions": 0,
            "distinct_outcomes": set(), "viol": [], "complete": True, "bound_pruned": 0}
     ref = isolated_reference(dialog, n_tasks)
-    info0 = {"engine": "E2-aio", "prop": "C15", "dialog": dialog, "n_tasks": n_tasks, "granularity": granularity}
+    info0 = {"engine": "E2-aio", "prop": "C15", "dialog": dialog, "n_tasks": n_tasks, "granularity": granularity, "streaming": STREAMING[0]}
+    if STREAMING[0] and any(not ref[k][3] for k in ref):
+        res["viol"].append(("harness:isolated-streaming-run-received-no-chunks", repr({k: ref[k] for k in ref})[:600], info0))
+        res["distinct_outcomes"] = 0
+        return res
 
     def on_execution(env, world, info):
         w = world["w"]
@@ -201,6 +230,11 @@ def explore(task):
             outcome.append(got_text)
             if got_text != ref[k][0] or mine != ref[k][1]:
                 bad("cross-request-influence", f"req{k}: reply {got_text!r} vs isolated {ref[k][0]!r}; prompts equal: {mine == ref[k][1]}")
+            if STREAMING[0]:
+                res["streamed_chunks_checked"] = res.get("streamed_chunks_checked", 0) + len(world["chunks"].get(k, []))
+                if world["chunks"].get(k, []) != ref[k][3]:
+                    bad("streaming:chunks-differ-from-isolated-run",
+                        f"req{k}: its streaming handler received {world['chunks'].get(k)!r}, alone {ref[k][3]!r}")
         # (c) parameters at rest
         if w.llm.temperature != CONFIGURED_T:
             bad("llm_params:not-restored-after-overlapping-requests",
@@ -229,26 +263,30 @@ def run_part(rep, tier):
     from vf import par
 
     if tier == "quick":
-        ts = [(False, 2, "quiescence", None, 60), (True, 2, "quiescence", None, 60), (False, 2, "iteration", 3, 60)]
+        ts = [(False, 2, "quiescence", None, 60), (True, 2, "quiescence", None, 60), (False, 2, "iteration", 3, 60),
+              (False, 2, "quiescence", None, 60, True), (True, 2, "quiescence", None, 60, True)]
     else:
         ts = [(False, 2, "quiescence", None, 300), (True, 2, "quiescence", None, 300), (False, 3, "quiescence", None, 600),
-              (True, 3, "quiescence", 4, 600), (False, 2, "iteration", None, 600), (True, 2, "iteration", 4, 600)]
-    agg = {"executions": 0, "states": 0, "transitions": 0, "validated": 0, "overlapping_executions": 0, "distinct_outcomes": 0}
+              (True, 3, "quiescence", 4, 600), (False, 2, "iteration", None, 600), (True, 2, "iteration", 4, 600),
+              (False, 2, "quiescence", None, 300, True), (True, 2, "quiescence", None, 300, True), (False, 3, "quiescence", None, 600, True),
+              (False, 2, "iteration", 3, 600, True)]
+    agg = {"executions": 0, "states": 0, "transitions": 0, "validated": 0, "overlapping_executions": 0, "distinct_outcomes": 0, "streamed_chunks_checked": 0}
     complete = True
     for r in par.pmap(explore, ts):
         for k in agg:
-            agg[k] += r[k]
+            agg[k] += r.get(k, 0)
         complete = complete and r["complete"]
         for sig, what, info in r["viol"]:
             rep.violation(sig, what, info)
     for k, v in agg.items():
         rep.set("conc_" + k, v)
     rep.set("conc_complete_within_bounds", complete)
-    rep.set("conc_configs", [f"dialog={t[0]} tasks={t[1]} granularity={t[2]} max_deviations={t[3]}" for t in ts])
+    rep.set("conc_configs", [f"dialog={t[0]} tasks={t[1]} granularity={t[2]} max_deviations={t[3]} streaming={len(t) > 5 and t[5]}" for t in ts])
     return agg
 
 
 def replay(rp):
+    STREAMING[0] = bool(rp.get("streaming"))
     make = make_factory(rp["dialog"], rp["n_tasks"])
     env = aio.Env(granularity=rp["granularity"])
     world = make(env)
